@@ -640,7 +640,9 @@ def check_C09(tier):
     c.add_report(vh_replay("extract", r.replay_path, "extract-c09", env_extra={"TZ": "UTC"}), "TableDefinition::extract (regex / split) vs Extract.tla")
     # every kind of invocation of the process ends with the modelled exit status and output: no panic, no signal
     cli_run(c, "total", ["all", "count", "limit1", "limit2", "from", "frommissing", "parsebad", "notable", "create", "second"], ["ok", "bad", "two", "none"], ["text", "json", "csv"], 1,
-            sample=None if t else 800)
+            fileids=("fa", "fb", "fe", "missing", "dir"), sample=None if t else 800)
+    # an input that opens but cannot be read (a directory) between two files: the run ends, the readable files are processed
+    cli_run(c, "unreadable", ["all", "count", "limit2"], ["ok"], ["json"], 3, fileids=("fa", "dir", "fb"))
     # arbitrary bytes through the executor in three formats; the CLI in child processes under TZs with DST gaps / overlaps
     trace_check(c, "total", "Trace_Total", 2500 if t else 600, "total", "byte soups and TZ runs (outcome classes)", rounds=3 if t else 1,
                 env={"VH_CLI": vlib.build_cli()})
